@@ -360,6 +360,29 @@ def check_rebuild_cursor(ctx, rule):
     if whyp or len(ps) != 1:
         ctx.undecided(rule, f"{key}|padding-starts-after-the-last-entry", site, whyp or "several padding loops"); return
     p = ps.pop()
+    # ... and reaches the end of the list: the padding loop runs to MAX_STREAMS itself; a single sentinel right after the last entry (readers stop at the first one) is
+    # written whenever that index exists (`idx < MAX_STREAMS`, not `< MAX_STREAMS - 1`: after a removal from a FULL list the last slot still holds a stale id)
+    full_ok = True; full_why = "the padding runs up to MAX_STREAMS"
+    for s_ in pad:
+        in_loop = util.in_loop(body, s_["b"])
+        if in_loop:
+            ends = []
+            for b in sorted(body.reachable):
+                for st in body.stmts(b):
+                    if st[0] == "A" and st[2][0] == "Agg" and st[2][1][0] == "Adt" and "ops::Range" in st[2][1][1] and len(st[2][2]) == 2 and body.dominates(b, s_["b"]):
+                        r0 = _root_with_offset(body, st[2][2][0])
+                        if r0 is not None and len(r0) == 3 and r0[0] == L: ends.append(strip_casts(dg.expr(st[2][2][1])))
+            if ends and not all(e_[0] == "gconst" and str(e_[1]).split("::")[-1] == "MAX_STREAMS" for e_ in ends):
+                full_ok = False; full_why = f"the padding range ends at `{show(ends[0])[:60]}`, not at MAX_STREAMS"
+        else:
+            guards_ = []
+            for x in sorted(body.dom[s_["b"]]):
+                c_ = D.cmp_of_switch(body, dg, x)
+                cb_ = D.canon_branch(c_) if c_ else None
+                if cb_ and cb_[0] == "lt" and body.dominates(cb_[3], s_["b"]) and "MAX_STREAMS" in show(cb_[2]): guards_.append(strip_casts(cb_[2]))
+            if guards_ and not all(g_[0] == "gconst" and str(g_[1]).split("::")[-1] == "MAX_STREAMS" for g_ in guards_):
+                full_ok = False; full_why = f"the single sentinel is written only when its index is below `{show(guards_[0])[:60]}`: the last slot of a formerly full list keeps a stale id"
+    ctx.ob(rule, f"{key}|padding-reaches-the-end-of-the-list", full_ok, site, full_why)
     ctx.ob(rule, f"{key}|padding-starts-after-the-last-entry", p == d, site,
            f"the sentinel padding starts at cursor{'%+d' % p if p else ''}; with the bump {'before' if d else 'after'} each entry store the first unwritten index is cursor{'+1' if d else ''}" +
            ("" if p == d else (": one slot LATE -- a stale id stays behind the last live entry (a dropped listener's queue keeps being fed, or a live one is fed twice)" if p > d else
